@@ -5,7 +5,9 @@ CONSTANTS
   Budget = 2
   MaxTurns = 5
   Restarts = 0
-  Defects = {}
+  Stops = 0
+  Pills = 0
+  Defects = {"StopRace"}
   RankOf <- Ranks
 VIEW View
 INVARIANTS SingleHandler SingleOwner OwnerIsProcessing NoDuplicate HandledWereSent PerProducerFIFO NoStrand
